@@ -184,6 +184,7 @@ def run_scenario(scn):
     href = min(orbit.h.values())
     w = {k: math.exp(-(orbit.h[k] - href)) for k in orbit.h}
     T = {}
+    had_error = False
     n_paths = 0
     reach_ends = set()
     starts = [(i, d) for i in range(-R - rmax, R + rmax + 1) for d in ((1, -1))]
@@ -208,13 +209,18 @@ def run_scenario(scn):
                 if margins and min(margins) < 1e-9:
                     return discard("criterion-margin")
                 if errors:
+                    # trajectories cut by integrator errors: stationarity is not claimed (probe), but the
+                    # reported step count / acceptance statistic of this path are still checked below
                     stats["integrator_error_paths"] += 1
-                    return discard("integrator-error-in-trajectory")
+                    had_error = True
                 if st_stats.get("diverging"):
                     stats["divergence_paths"] += 1
                 j, dist = orbit.index_of(out, tol_idx)
                 if j is None:
-                    return discard("end-state-off-orbit")
+                    if had_error:
+                        j = 10**6  # off-orbit after an error: only bookkeeping is judged
+                    else:
+                        return discard("end-state-off-orbit")
                 e = int(out.dir)
                 key = (i, d, j, e) if metrop else (i, d, j, 0)
                 T[key] = T.get(key, 0.0) + p
@@ -231,7 +237,7 @@ def run_scenario(scn):
                     diff = h_init - hk
                     probs.append(0.0 if math.isnan(diff) else math.exp(min(0.0, diff)))
                 if metrop:
-                    want = probs[-1] if probs else 0.0
+                    want = 0.0 if errors else (probs[-1] if probs else 0.0)
                 else:
                     flagged = any(st_stats.get(k_) for k_ in ("diverging", "convergence_error", "non_reversible_step"))
                     want = 0.0 if flagged or not probs else sum(probs) / len(probs)
@@ -245,6 +251,8 @@ def run_scenario(scn):
             stats["paths"] = n_paths
             return discard("path-cap")
     stats["paths"] = n_paths
+    if had_error:
+        return discard("integrator-error-in-trajectory")
     # row sums
     rows = {}
     for (i, d, j, e), p in T.items():
